@@ -751,8 +751,8 @@ impl Array {
             //check if positive and if below length of array
             IntegerOrInfinity::Integer(i) if i >= 0 && i < len => i,
             //5. Else, let k be len + relativeIndex
-            //integer should be negative, so abs() and check if less than or equal to length of array
-            IntegerOrInfinity::Integer(i) if i < 0 && i.abs() <= len => len + i,
+            //integer should be negative, so check if its magnitude is less than or equal to length of array
+            IntegerOrInfinity::Integer(i) if i < 0 && i >= -len => len + i,
             //handle most likely impossible case of
             //IntegerOrInfinity::NegativeInfinity || IntegerOrInfinity::PositiveInfinity
             //by returning undefined
